@@ -11,6 +11,9 @@ CHECKS = {
   "C04": dict(level="exploration", technique="stateful property-based testing, differential of six library verdicts against the exact big-integer empty-circumsphere oracle on deliberately non-Delaunay reachable states",
      text="Legal flips, repair-less insertions and removals drive constructed triangulations away from Delaunay; on every independently valid state each validator's accept/reject is compared with the exact strict-violation list (soundness), and on general-position states with decidable determinants with the absence of violations (completeness).",
      note="Only decidable (outside tolerance+rounding band) violations count. Known root causes are excluded per (validator family, cause).", ref="3 C04"),
+  "C05": dict(level="fault_enumeration", technique="fault-injection property-based testing: per-instance enumeration of 29 single-fault classes (and fault pairs on small instances) on copies of library-built triangulations, differential of every validator verdict against the independent per-level recomputation",
+     text="On generated library-built triangulations (D 2-5, every topology guarantee) every instance of each fault class is injected through feature-gated raw mutators; the lowest level the independent reference finds broken must be rejected by the validator owning it and by every cumulative validator, intact levels must be accepted (incl. harmless faults and the uncorrupted instance), cumulative validators must equal the conjunction of their levels and validation_report().is_ok() must equal validate().is_ok().",
+     note="Levels above the lowest broken one are not judged. Euler expectation mirrors the documented classification (ball 1, closed 1+(-1)^D). Cells whose exact orientation lies inside the tolerance band are not judged.", ref="3 C05"),
   "C06": dict(level="exploration", technique="stateful property-based testing: generated removal/insertion histories (incl. draining to the bootstrap state, unknown vertices) with independent L1-L3 + exact Delaunay oracle and fingerprint equality",
      text="Every successful remove_vertex in generated histories is checked for vertex-set exactness, independent levels and (when repair is on and the pre-state was Delaunay) the exact Delaunay level; unknown vertices must be no-ops.",
      note="Returned cell count only constrained for unknown vertices. Known findings excluded by exact fact signature.", ref="3 C06"),
